@@ -14,3 +14,7 @@ theorem Net.mem_all (n : Net) : n ∈ Net.all := by cases n <;> decide
 theorem Kind.mem_all (k : Kind) : k ∈ Kind.all := by cases k <;> decide
 theorem Denom.mem_all (d : Denom) : d ∈ Denom.all := by cases d <;> decide
 theorem RctTy.mem_all (t : RctTy) : t ∈ RctTy.all := by cases t <;> decide
+
+/-- `std::mem::size_of` of the element types of explicit-length vectors, as compiled into the harness (used by the
+allocation cap `len * size_of::<T>() <= MAX_VEC_MEM_ALLOC_SIZE`); regenerated on every run (Gen/Sizes.lean) -/
+structure Sizes where (txin txout varint key bp bpp u8 rangesig : Nat)
